@@ -81,6 +81,9 @@ type server struct {
 	dials    int
 	refuse   bool // refuse new connections
 	staleAck int64
+	// sessionAfterConfig: a further new_session_created follows the config result
+	// at once (servers may announce a session at any time, e.g. after a reset)
+	sessionAfterConfig bool
 }
 
 func (s *server) dial(ctx context.Context, network, addr string) (net.Conn, error) {
@@ -116,7 +119,11 @@ func (s *server) dial(ctx context.Context, network, addr string) (net.Conn, erro
 			_ = p.Send(p.NextID(1), 1, pbt.RPCResult(m.MsgID, s.cfg))
 			s.mu.Lock()
 			s.staleAck = m.MsgID // answered: the client does not wait for this id any more
+			again := s.sessionAfterConfig
 			s.mu.Unlock()
+			if again {
+				_ = p.Send(p.NextID(3), 1, pbt.NewSessionCreated(m.MsgID, int64(idx+101), 0x5555))
+			}
 			return
 		}
 		i := bytes.Index(m.Body, binary.LittleEndian.AppendUint32(nil, marker))
